@@ -74,7 +74,7 @@ def _p1(p):
     p.setg(D, "int", sym_int); p.setg(D, "float", sym_float)
     p.setg(D, "datetime", models.SDateTime)
     INFO["dlde_patterns_wrapped"] = regex.wrap_module_patterns(p, D)
-    p.setg(D, "str", sym_str); p.setg(D, "isinstance", models.sym_isinstance); p.setg(D, "round", sym_round)
+    p.setg(D, "str", sym_str); p.setg(D, "isinstance", models.sym_isinstance); p.setg(D, "round", sym_round); p.setg(D, "range", models.SymRange)
     try:
         restore, done = loader.safe_if_convert_module(D)
         p.undo.append(restore)
@@ -135,7 +135,7 @@ def _decoders(p):
     p.setg(cosem, "datetime", models.fake_datetime_module)
     for mod in (aidon, kaifa, kamstrup, cosem):
         p.setg(mod, "float", sym_float); p.setg(mod, "round", sym_round); p.setg(mod, "int", sym_int); p.setg(mod, "str", sym_str)
-        p.setg(mod, "isinstance", models.sym_isinstance); p.setg(mod, "hasattr", models.sym_hasattr)
+        p.setg(mod, "isinstance", models.sym_isinstance); p.setg(mod, "hasattr", models.sym_hasattr); p.setg(mod, "range", models.SymRange)
         regex.wrap_module_patterns(p, mod)
     try:
         restore, counts = loader.rewrite_adapter_lambda(cosem, "ObisCode", "decoder")
